@@ -215,6 +215,17 @@ func extractC04KeysAndJti(l *lean, akF, mw *ast.File) {
 		}
 	}
 	l.def("jtiCheck", "List String", leanStrList(jtiStmts), jtiStmts)
+	// the library function applied to the jti: `.parse` (uuid.Parse) / `.validate` (uuid.Validate); anything else does not elaborate
+	jtiFn := "unknown_jti_function"
+	for _, t := range jtiStmts {
+		switch {
+		case strings.Contains(t, "uuid.Parse(jti)"):
+			jtiFn = ".parse"
+		case strings.Contains(t, "uuid.Validate(jti)"):
+			jtiFn = ".validate"
+		}
+	}
+	l.def("jtiFunction", "JtiFn", jtiFn, jtiFn)
 	tj := "MISSING"
 	if fd := funcDecl(mw, "tokenJTI"); fd != nil {
 		tj = c04Flat(fd.Body)
